@@ -54,6 +54,28 @@ def putA {β : Type} : List (String × β) → String → β → List (String ×
   | [], k, h => [(k, h)]
   | (k', h') :: r, k, h => if k' = k then (k, h) :: r else (k', h') :: putA r k h
 
+/-- removal of a key from an association list -/
+def removeA {β : Type} (l : List (String × β)) (k : String) : List (String × β) := l.filter fun p => p.1 != k
+
+/-! ### Configuration as a map: the reference semantics of every per-transformer setting
+
+Every per-transformer configuration operation (install/uninstall a function under a QName, locally or process-wide;
+set an option; add/remove a listener) is `set key value` or `remove key` on a map; the *net configuration* a fresh
+transformer must be given is, per key, the value of the last `set` not followed by a `remove`. -/
+inductive COp where
+  | set (k v : String)
+  | remove (k : String)
+deriving DecidableEq, Repr
+
+def applyC (m : List (String × String)) : COp → List (String × String)
+  | .set k v => putA m k v
+  | .remove k => removeA m k
+
+/-- what the history says about key `k`, scanning the operations in order -/
+def lastWrite (k : String) (acc : Option String) : COp → Option String
+  | .set k' v => if k' = k then some v else acc
+  | .remove k' => if k' = k then none else acc
+
 def ParamMap.put (ps : ParamMap) (k : String) (h : Holder) : ParamMap := putA ps k h
 
 /-- `clearsOther` = does the code drop the other representation (false on the tree as found) -/
@@ -93,10 +115,12 @@ inductive Op where
   | setParamExpr (k e : String)
   | setParamNum (k v : String)
   | clearParams
-  | install (f : String)
+  /-- `installExternalFunction(ns, name, implementation)`: `impl` names the implementation (a later install under the
+  same name replaces the earlier one) -/
+  | install (f impl : String)
   | uninstall (f : String)
   /-- process-wide `XalanTransformer::installExternalFunctionGlobal` / `uninstall…Global` (static) -/
-  | ginstall (f : String)
+  | ginstall (f impl : String)
   | guninstall (f : String)
   /-- a configuration option with a public setter (setIndent, setOutputEncoding, setEscapeURLs, setOmitMETATag,
   setProblemListener, add/removeTraceListener): sticky by contract -/
@@ -112,9 +136,9 @@ inductive Op where
 structure Tx where
   mem : State
   params : ParamMap
-  funcs : List String
+  funcs : List (String × String)
   /-- process-wide function table (not owned by the transformer: a new transformer sees it too) -/
-  gfuncs : List String
+  gfuncs : List (String × String)
   config : List (String × String)
   sheets : List (Nat × String)
   sources : List (Nat × String)
@@ -144,8 +168,8 @@ structure Obs where
   /-- values of the members the interpreter starts from, after doTransform's set-up, in `startIds` order -/
   pre : List Val
   params : List (String × PVal)
-  funcs : List String
-  gfuncs : List String
+  funcs : List (String × String)
+  gfuncs : List (String × String)
   config : List (String × String)
   sheet : Option String
   source : Option String
@@ -181,10 +205,10 @@ def step (t : Tx) : Op → Tx × Reply
   | .setParamExpr k e => ({ t with params := setExpr paramSetClearsOther t.params k e }, .ok)
   | .setParamNum k v => ({ t with params := setObj paramSetClearsOther t.params k v }, .ok)
   | .clearParams => ({ t with params := [] }, .ok)
-  | .install f => ({ t with funcs := f :: t.funcs.filter (· != f) }, .ok)
-  | .uninstall f => ({ t with funcs := t.funcs.filter (· != f) }, .ok)
-  | .ginstall f => ({ t with gfuncs := f :: t.gfuncs.filter (· != f) }, .ok)
-  | .guninstall f => ({ t with gfuncs := t.gfuncs.filter (· != f) }, .ok)
+  | .install f i => ({ t with funcs := putA t.funcs f i }, .ok)
+  | .uninstall f => ({ t with funcs := removeA t.funcs f }, .ok)
+  | .ginstall f i => ({ t with gfuncs := putA t.gfuncs f i }, .ok)
+  | .guninstall f => ({ t with gfuncs := removeA t.gfuncs f }, .ok)
   | .config n v => ({ t with config := putA t.config n v }, .ok)
   | .destroySheet slot =>
     match t.sheets.lookup slot with
@@ -214,8 +238,8 @@ transformation is answered from a *freshly constructed* member state. -/
 
 structure Spec where
   params : ParamMap
-  funcs : List String
-  gfuncs : List String
+  funcs : List (String × String)
+  gfuncs : List (String × String)
   config : List (String × String)
   sheets : List (Nat × String)
   sources : List (Nat × String)
